@@ -6,7 +6,7 @@ import ast
 from ..callgraph import CallGraph
 from ..loader import AnalysisError, dotted, norm, walk_no_defs
 from ..report import RuleReport
-from ..rules.common import FlagSem, attr_chain, run_flags
+from ..rules.common import FlagSem, attr_chain, conjuncts, run_flags
 
 LEVEL = 'other'
 TECHNIQUE = ('static: cache-key dataflow rule, who-may-write/who-may-read ownership of the memo stores with checked '
@@ -171,6 +171,10 @@ def r2_ownership(a, tier):
             q = f.qualname
             rep.add({'store': attr, 'function': q, 'access': kind, 'expr': norm(par)[:70] if par is not None else attr})
             allowed = table.get(q)
+            if allowed is None:
+                # a private helper reached only from owners of this kind of access acts on their behalf
+                if a.callgraph.only_reached_through(q, {o for o, ks in table.items() if kind in ks}):
+                    allowed = {kind}
             if allowed is None or kind not in allowed:
                 rep.fail(q, f'{attr}:{kind}', f'`{norm(par)[:80] if par is not None else attr}` {kind}s {attr} outside its owners '
                          f'({", ".join(x.split(".")[-1] for x in table)}): an entry stored or removed here bypasses the memoizable/'
@@ -189,8 +193,7 @@ def r2_ownership(a, tier):
             while id(cur) in pm:
                 par = pm[id(cur)]
                 if isinstance(par, ast.If) and any(cur is s or any(x is cur for x in ast.walk(s)) for s in par.body):
-                    conj = par.test.values if isinstance(par.test, ast.BoolOp) and isinstance(par.test.op, ast.And) else [par.test]
-                    gate |= {norm(c) for c in conj}
+                    gate |= {norm(c) for c in conjuncts(mz, par.test)}
                 cur = par
             ok = any(g.endswith('.memoizable') for g in gate) and any(g.endswith('config.memoization') for g in gate)
             key_ok = norm(n.slice) == mz.params[1]
@@ -201,8 +204,17 @@ def r2_ownership(a, tier):
             if not key_ok:
                 rep.fail(mz.qualname, 'memoize-key', 'memoize stores under something else than its key parameter', mz.loc)
     # pruning predicates
-    for q, want in ((f'{CORE}.cut', 'keeps-guards'), (f'{ENGINE}.clear_recursion_errors', 'only-guards')):
-        fn = a.p.func(q)
+    wants = {f'{CORE}.cut': 'keeps-guards', f'{ENGINE}.clear_recursion_errors': 'only-guards'}
+    pruners = []
+    for f, _n, kind, _par in _store_accesses(a, '_memos'):
+        if kind == 'prune' and f not in [x for x, _ in pruners]:
+            for owner, want in wants.items():
+                if a.callgraph.only_reached_through(f.qualname, {owner}):
+                    pruners.append((f, want))
+    if len(pruners) < 2:
+        raise AnalysisError(f'pruners of _memos: found {[f.qualname for f, _ in pruners]}, expected those of cut and clear_recursion_errors')
+    for fn, want in pruners:
+        q = fn.qualname
         preds = [s for s in a.p.functions.values() if s.parent is fn]
         prune = [n for n in walk_no_defs(fn.node) if isinstance(n, ast.Call) and dotted(n.func).split('.')[-1] == 'prune_dict']
         for pc in prune:
